@@ -85,6 +85,15 @@ func TestVerifReplay(t *testing.T) {
 		return "interp-only"
 	}
 	status, out := runReplay(dir)
+	if status != "reproduced" {
+		for _, in := range v.Inputs {
+			if in.Tag == "sched" || in.Tag == "select" {
+				// the native scheduler cannot be steered onto the recorded schedule
+				status = "interp-only"
+				break
+			}
+		}
+	}
 	os.WriteFile(filepath.Join(dir, "native_output.txt"), []byte(out), 0o644)
 	os.WriteFile(filepath.Join(dir, "status.txt"), []byte(status+"\n"), 0o644)
 	return status
